@@ -274,7 +274,7 @@ def run_case(case):
 
 def gen_cases(tier, seed):
     rng = random.Random(seed * 37 + 1)
-    n = 64 if tier == "quick" else 1200
+    n = 64 if tier == "quick" else 6000
     pws = ["secret", "s3cr3t pass", " leading", "a", "ab", "%s%s%s", "%(x)s", "{}{}", "back\\slash", "пароль1", "pa ss  wo rd", "***", "****",
            "PASS secret2", "x" * 64, "trailing ", "two blanks  ", " both ends ", "tab\tin\tside", "end-tab\t"]
     while len(pws) < n:
